@@ -40,13 +40,13 @@ inductive Kind where
   | eager | lazy | data
   deriving DecidableEq, Repr
 
-/-- one table entry as extracted from the source: key, `symbol:` field, arity, and a hash of the
-whitespace-normalised `operator:` expression -/
+/-- one table entry as extracted from the source: key, `symbol:` field, arity (which Rust expression the key is
+bound to is deliberately not part of the entry: rebinding through a wrapper is a harmless rewrite, and behaviour per key
+is what the correspondence check compares) -/
 structure Entry where
   key : Str
   symbol : Str
   arity : Arity
-  ophash : Str
   deriving DecidableEq
 
 def findEntry (k : Str) : List Entry → Option Entry
